@@ -52,10 +52,16 @@ structure TService where
   base : Option Str
   methods : List TMethod
 
+structure TTopic where
+  kind : S
+  name : S
+  msgs : List S
+
 structure TSpec where
   pkg : S
   schemas : List TSchema
   services : List TService
+  topics : List TTopic
   nEntities : Nat
 
 /-! ## token parser (prefix notation with counts) -/
@@ -103,10 +109,9 @@ def hexTok : P Str := do
   | some b => pure b
   | none => failure
 
-def pMsgs : P Unit := do
+def pMsgs : P (List S) := do
   let n ← num
-  let _ ← rep n (do let _ ← tok; let _ ← pProps; pure ())
-  pure ()
+  rep n (do let name ← tok; let _ ← pProps; pure name)
 
 def pSpec : P TSpec := do
   -- "<pkg>" or "<pkg>+<n>" (n schemas live in a second source file: irrelevant for the model)
@@ -134,17 +139,19 @@ def pSpec : P TSpec := do
       pure { name, verb, path, req, hasResp := hr == "1", resp, list := l == "1" : TMethod })
     pure { name, base, methods : TService })
   let nT ← num
-  let _ ← rep nT (do
-    let kind ← tok; let _ ← tok
+  let topics ← rep nT (do
+    let kind ← tok; let name ← tok
     if kind == "W" || kind == "V" then do let _ ← tok; pure ()
-    pMsgs)
+    let msgs ← pMsgs
+    pure { kind, name, msgs : TTopic })
   let nE ← num
   let _ ← rep nE (do
     let _ ← tok
     let _ ← pProps; let _ ← pProps
     let n ← num; let _ ← rep n tok
-    pMsgs)
-  if (← get).isEmpty then pure { pkg, schemas, services, nEntities := nE } else failure
+    let _ ← pMsgs
+    pure ())
+  if (← get).isEmpty then pure { pkg, schemas, services, topics, nEntities := nE } else failure
 
 /-! ## graph of named schemas (inline schemas hoisted as `<Parent>_<Camel(field)>`) -/
 
@@ -303,7 +310,16 @@ def chainLine (sp : TSpec) : S :=
   let keys := match collect g roots with
     | some is => csv (sortStrings (is.filterMap fun i => (nodes[i]?).map (·.key))) "-"
     | none => "collect-fuel"
-  "ok S" ++ toString sp.services.length ++ String.join svcs ++ " K:" ++ keys
+  -- topics: `acceptTopic` / `acceptMultiReqResTopic` naming
+  let tname (n : S) : S := ofStr (topicName (strOf n))
+  let mname (n : S) : S := ofStr (messageName (strOf n))
+  let topics : List S := sp.topics.foldl (fun acc t =>
+    if t.kind == "P" then acc ++ [tname t.name ++ "=" ++ "+".intercalate (t.msgs.map mname)]
+    else if t.kind == "Q" then
+      acc ++ [tname (t.name ++ "Request") ++ "=" ++ mname (t.name ++ "Request"),
+              tname (t.name ++ "Reply") ++ "=" ++ mname (t.name ++ "Reply")]
+    else acc ++ [tname t.name ++ "=" ++ mname t.name]) []
+  "ok S" ++ toString sp.services.length ++ String.join svcs ++ " K:" ++ keys ++ " T:" ++ csv topics "-"
 
 /-! ## kernel ops -/
 
